@@ -13,7 +13,8 @@
     * Python slices `data[a:b]` never fail, they truncate                                     → `pySlice`;
       VarLen / VarLenUtf8 / NestedPayload / DefaultArray check `offset + declared length <= len(data)` before slicing
       (PackError otherwise)                                                                      → `sliceChecked`;
-      Address (domain host) and NodePacker (key) slice unchecked; the following `unpack_from` / varlenH bounds them;
+      Address (domain host) slices unchecked; the following `unpack_from` of the port bounds it; NodePacker goes through
+      `Serializer.unpack("varlenH")`, i.e. VarLen.unpack with its bounds check;
     * NestedPayload.unpack ignores the inner end offset (trailing bytes inside the declared size are dropped);
     * `struct.pack` raises on out-of-range integers and on a wrong argument count; "Ns" pads with NULs / truncates;
     * Raw.unpack returns `len(data)` and `data[offset:]`.
@@ -222,10 +223,18 @@ def ValList.length : ValList → Nat
 
 /-! ### struct fields -/
 
+/-- Python truthiness of an atom (`if x:`) -/
+def truthy : Atom → Bool
+  | .nat n => n != 0
+  | .int i => i != 0
+  | .bool b => b
+  | .bytes b => !b.isEmpty
+  | .float _ => true   -- never used as a bit by shipped code; 0.0 would be falsy in Python
+
 def packField : SField → Atom → Except Err Bytes
   | .uint w, .nat n => packUint w n
   | .sint w, .int i => if sintInRange w i then .ok (beEnc w (sintEnc w i)) else .error .range
-  | .bool, .bool b => .ok [if b then 1 else 0]
+  | .bool, a => .ok [if truthy a then 1 else 0]          -- struct "?" packs the truth value of ANY object
   | .char, .bytes b => if b.length = 1 then .ok b else .error .range
   | .fixed n, .bytes b => .ok (fixedPad n b)
   | .float w, .float bits => if bits.length = w then .ok bits else .error .type
@@ -256,12 +265,6 @@ def structSize (fs : List SField) : Nat := (fs.map SField.size).sum
 
 /-! ### bits -/
 
-def truthy : Atom → Bool
-  | .nat n => n != 0
-  | .int i => i != 0
-  | .bool b => b
-  | .bytes b => !b.isEmpty
-  | .float _ => true   -- never used as a bit by shipped code; 0.0 would be falsy in Python
 
 def bitsByte : List Atom → Nat
   | [b7, b6, b5, b4, b3, b2, b1, b0] =>
@@ -351,7 +354,8 @@ mutual
 def pack : Fmt → Val → Except Err Bytes
   | .struct fs, .atom a => packFields fs [a]       -- `packer.pack(x)`: struct.error unless there is exactly one field
   | .struct fs, .tuple as => packFields fs as      -- `packer.pack(*xs)`
-  | .bits, .tuple as => if as.length = 8 then .ok [UInt8.ofNat (bitsByte as)] else .error .type
+  | .bits, .tuple as =>      -- Bits.pack(*data) reads data[0..7]: fewer raise IndexError, extra arguments are ignored
+    if 8 ≤ as.length then .ok [UInt8.ofNat (bitsByte (as.take 8))] else .error .type
   | .ipv4, .addr (.v4 ip port) => do
     let p ← packUint 2 port
     .ok (fixedPad 4 ip ++ p)
@@ -451,7 +455,8 @@ def unpackAt : Fmt → Bytes → Nat → Except Err (Val × Nat)
   | .node, d, off => do
     let (a, o1) ← unpackAddressAt true d off
     let n ← readUint d o1 2
-    .ok (.node a (pySlice d (o1 + 2) (o1 + 2 + n)), o1 + 2 + n)
+    let key ← sliceChecked d (o1 + 2) n
+    .ok (.node a key, o1 + 2 + n)
 def unpackListAt : FmtList → Bytes → Nat → Except Err (ValList × Nat)
   | .nil, _, off => .ok (.nil, off)
   | .cons f fs, d, off => do
